@@ -60,10 +60,49 @@ class C18(Check):
                 for d in (-50401, -3601, -3600, -1801, -1, 0, 1, 1799, 1800, 3599, 3600, 43200, 50400):
                     s = edge + d
                     cases.append(("dos_try_from %d %d %d" % (s, max(off, 0), max(-off, 0)), {"k": "try_from", "ts": s + off}))
+        # through the writer: the (date, time) words an entry is given -- as DateTime::from_msdos produces them from any
+        # archive, valid calendar date or not -- are the words in its local header and central record, whether the entry is
+        # started, copied raw from an archive carrying them, or re-emitted by an append round
+        import wprog
+        from wprog import Opts
+        words = [(0, 0), (0x21, 0), (0x1a0 | 5, 0), (0x1c0 | 5, 0), (0x1e0 | 5, 0), (0x4d20, 0), (0x4d71, 24 << 11), (0x4d71, 31 << 11),
+                 (0x4d71, 60 << 5), (0x4d71, 63 << 5), (0x4d71, 30), (0x4d71, 31), (0xffff, 0xffff), (0x0021, 0xbf7d), (0xff9f, 0xbf7d)]
+        words += [(r.randrange(65536), r.randrange(65536)) for _ in range(25 if self.tier == "quick" else 400)]
+        progs = [[("file", b"t", Opts(date=d, time=t)), ("write", b"stamp"), ("dir", b"d", Opts(date=t, time=d)), ("finish",)] for d, t in words]
+        wl = [wprog.line(ops) for ops in progs]
+        first = run_lines(self.exes["debug"], wl)
+        for (d, t), l, o in zip(words, wl, first):
+            cases.append((l, {"k": "wr", "w": [(d, t), (t, d)]}))
+            arch = wprog.final_bytes(o)[1]
+            if arch:
+                cases.append((wprog.line([("file", b"first", Opts()), ("rawcopy", arch, 0, None), ("rawcopy", arch, 1, b"renamed/"), ("finish",)]),
+                              {"k": "wr", "w": [None, (d, t), (t, d)]}))
+                cases.append((wprog.line([("file", b"added", Opts()), ("finish",)], base=arch), {"k": "wr", "w": [(d, t), (t, d), None]}))
         return cases
 
     def oracle(self, line, meta, out):
         k = meta["k"]
+        if k == "wr":
+            import wprog, struct
+            if out is None or "PANIC" in out or out.startswith("ABORT") or out == "TIMEOUT":
+                return "implementation did not return: %s" % (out or "")[:160]
+            data = wprog.final_bytes(out)[1]
+            if not data:
+                return "a legal writer program produced no archive: " + out[:120]
+            eo = data.rfind(b"PK\x05\x06")
+            n, cdsize, cdoff = struct.unpack("<HII", data[eo + 10:eo + 20])
+            if n != len(meta["w"]):
+                return "archive lists %d entries, %d were written" % (n, len(meta["w"]))
+            pos = cdoff
+            for i, w in enumerate(meta["w"]):
+                ct, cd = struct.unpack("<HH", data[pos + 12:pos + 16])
+                nl, xl, cl = struct.unpack("<HHH", data[pos + 28:pos + 34])
+                lho = struct.unpack("<I", data[pos + 42:pos + 46])[0]
+                lt, ld = struct.unpack("<HH", data[lho + 10:lho + 14])
+                if w is not None and ((cd, ct) != tuple(w) or (ld, lt) != tuple(w)):
+                    return "entry %d was given DOS date/time words %s, its central record holds %s and its local header %s" % (i, tuple(w), (cd, ct), (ld, lt))
+                pos += 46 + nl + xl + cl
+            return None
         if out is None or out.startswith("[PANIC") or out.startswith("ABORT") or out == "TIMEOUT":
             return "implementation did not return: %s" % out
         f = parse_list(out)
